@@ -71,7 +71,24 @@ fn work_dir() -> String {
 }
 
 /// Run one execution in-process (the caller must be a fresh process).
+struct StderrLogger;
+impl log::Log for StderrLogger {
+    fn enabled(&self, _: &log::Metadata) -> bool {
+        true
+    }
+    fn log(&self, r: &log::Record) {
+        if r.target().starts_with("pgcat") || r.target().starts_with("bb8") {
+            eprintln!("[{} {}] {}", r.level(), r.target(), r.args());
+        }
+    }
+    fn flush(&self) {}
+}
+
 pub fn execute(sc: &Scenario, oracle: &Oracle, prefix: &[u32], expect_n: &[u32], config_path: &str) -> ExecResult {
+    if std::env::var("VERIF_LOG").is_ok() {
+        let _ = log::set_boxed_logger(Box::new(StderrLogger));
+        log::set_max_level(log::LevelFilter::Debug);
+    }
     let hook_panics = std::sync::Arc::new(parking_lot::Mutex::new(Vec::<String>::new()));
     {
         let hp = hook_panics.clone();
@@ -423,6 +440,9 @@ fn process_result(scenarios: &[Scenario], rep: &mut Report, levels: &mut [Vec<Jo
 
 /// Run a single schedule with tracing in a forked child and return its result.
 pub fn run_single(sc: &Scenario, oracle: &Oracle, choices: &[u32]) -> Option<ExecResult> {
+    // initialise this thread's hash-map keys before forking so that every child of this process
+    // iterates hash maps in the same order (two replays must give identical observations)
+    let _keys: std::collections::HashSet<u8> = std::collections::HashSet::new();
     let mut sc = sc.clone();
     sc.opts.trace = true;
     let scs = vec![sc];
